@@ -23,6 +23,20 @@ for f in sorted(glob.glob(V + "/evidence/C*.json")):
         c["distinct_nontrivial"], len(ff), sum(ff.values()), c.get("steps", 0)))
 put("runs", "\n".join(rows))
 
+# ---- as-built summary per property (from tools/claims.py and the checks' ASSUMPTIONS)
+CLAIMED = {}
+def claim(pid, category, technique, text, note, ref):
+    CLAIMED[pid] = (category, technique, text, note, ref)
+exec(open(V + "/tools/claims.py").read())
+import re as _re
+out = []
+for pid in sorted(CLAIMED):
+    cat, tech, text, note, ref = CLAIMED[pid]
+    src = open(V + "/checks/%s.py" % pid.lower()).read()
+    m = _re.search(r'BUDGET = (\{.*?\}\})', src, _re.S)
+    out.append("**%s** (%s) - %s.\n%s\n*Trusted / assumed:* %s\n" % (pid, cat, tech, text, note))
+put("asbuilt", "\n".join(out))
+
 # ---- findings
 kf = json.load(open(V + "/known_findings.json"))
 rows = ["| property | status | fix commit | what failed |", "|----------|--------|------------|-------------|"]
